@@ -360,3 +360,9 @@ func vhC06Route(maxParams int, nValidators int, symbolicResponses bool) {
 
 func vh_C06_params_Q()    { vhC06Route(2, 4, false) }
 func vh_C06_responses_Q() { vhC06Route(0, 4, true) }
+
+// C14: both emitters never panic on accepted routes and models
+func vh_C14_emitters_Q() {
+	symxAssertionsOff()
+	vhC06Route(2, 4, false)
+}
